@@ -54,7 +54,7 @@ func GenConfig(rng *rand.Rand, p *Profile) *CaseConfig {
 	}
 	cfg.Universe = append(cfg.Universe, ids...)
 	for i := 0; i < 2; i++ {
-		o := fmt.Sprintf("ndx%d", i)
+		o := fmt.Sprintf("nd0%c", 'x'+i) // outsiders share the first three bytes with the members nd00..nd09
 		cfg.Universe = append(cfg.Universe, o)
 		cfg.Outsiders[o] = true
 	}
